@@ -38,6 +38,10 @@ import (
 //	        S  CommitOffsetsSync  {t/0:n}
 //	        Z  think time: 6 virtual seconds (longer than the heartbeat and
 //	           both autocommit intervals)
+//	        z  think time ending 5 ms after the next autocommit tick (so that,
+//	           when the coordinator answers that tick's commit with a
+//	           retriable error, the next call is made while the client's own
+//	           commit is backing off)
 //	      after an unscripted prologue that polls until both partitions
 //	      returned records,
 //	t2    what a second thread does: nothing, C cancel a's context, B a second
@@ -59,8 +63,11 @@ import (
 //
 // Oracles (the property's, following any script):
 //  1. wire order: tagged request frames reach the broker in non-decreasing
-//     call order, none after its call reported completion, and no other
-//     commit's frame between two attempts of one call;
+//     call order, none after its call reported completion; no request of an
+//     explicit call while a commit of the client's own is in flight (a
+//     request of it delivered, its AutoCommitCallback not yet run), no
+//     request of the client's own while an explicit call is in flight, and
+//     no other commit's frame between two attempts of one call;
 //  2. at the end (everything finished, no commit traffic for 300 virtual ms):
 //     per partition the group's committed offset and CommittedOffsets() equal
 //     the value of the last successful commit, where the successful commits
@@ -107,9 +114,9 @@ const quickCfgs = 4
 // below the public function; the hand-written scenarios issue it) to the
 // thorough tier.
 func t1alphabet(c gcfg, thorough bool) string {
-	a := "AaSUPZ"
+	a := "AaSUzPZ"
 	if c.marks {
-		a = "AaSUMPZ"
+		a = "AaSUMzPZ"
 	}
 	if thorough {
 		a += "R"
@@ -199,6 +206,16 @@ type gstate struct {
 	initDone chan struct{}
 	over     atomic.Bool
 	ended    bool // T2 closed the client or left the group
+	implOpen int  // requests of the client's own current commit delivered, its callback not yet run
+}
+
+// ownCommitDone is the AutoCommitCallback: the client's own commit (autocommit
+// tick, commit of the default OnPartitionsRevoked) is over.
+func (st *gstate) ownCommitDone(*kgo.Client, *kmsg.OffsetCommitRequest, *kmsg.OffsetCommitResponse, error) {
+	st.mu.Lock()
+	st.implOpen = 0
+	st.act++
+	st.mu.Unlock()
 }
 
 const tagPrefix = "c09-call-"
@@ -254,6 +271,17 @@ func (st *gstate) onDone(c *gcall) func(*kgo.Client, *kmsg.OffsetCommitRequest, 
 		}
 		st.finish(c, codes, err)
 	}
+}
+
+func (c *gcall) codesAPI() bool { return strings.ContainsRune("AaS", c.sym) }
+
+func (st *gstate) hasFrame(call int) bool {
+	for _, f := range st.frames {
+		if f.call == call {
+			return true
+		}
+	}
+	return false
 }
 
 func (st *gstate) allDone() bool {
@@ -328,6 +356,15 @@ func (st *gstate) hook(c *netctl.Conn, dir string, key, ver int16, frame []byte)
 		}
 		st.frames = append(st.frames, f)
 		if f.call == 0 {
+			st.implOpen++
+			// Calls with a callback are marked done inside it, i.e. before the
+			// client releases the next commit; the others only after the API
+			// returned (the X-own-X pattern below covers those).
+			for _, cc := range st.calls {
+				if cc.codesAPI() && cc.issued && !cc.done && st.hasFrame(cc.idx) {
+					st.x.Violate("commit-interleaved", "a commit issued by the client on its own reached the broker while call %d (%c %s) was still in flight (wire: %s)", cc.idx, cc.sym, offs(cc.offsets), st.wire())
+				}
+			}
 			return
 		}
 		if f.call < 1 || f.call > len(st.calls) {
@@ -337,6 +374,9 @@ func (st *gstate) hook(c *netctl.Conn, dir string, key, ver int16, frame []byte)
 		cc := st.calls[f.call-1]
 		if !sameOffsets(cc.offsets, f.parts) {
 			st.x.Violate("commit-content-changed", "request of call %d carries %s on the wire but %s when it was issued", f.call, offs(f.parts), offs(cc.offsets))
+		}
+		if st.implOpen > 0 {
+			st.x.Violate("commit-interleaved", "a request of call %d (%c %s) reached the broker while a commit issued by the client on its own (autocommit / revoke) was still in flight (wire: %s)", f.call, cc.sym, offs(f.parts), st.wire())
 		}
 		if cc.done {
 			st.x.Violate("commit-after-completion", "an OffsetCommit request of call %d (%c %s) reached the broker after the call had reported completion (wire: %s)", f.call, cc.sym, offs(f.parts), st.wire())
@@ -489,7 +529,16 @@ func genScenario() *netctl.Scenario {
 				kgo.ConsumeResetOffset(kgo.NewOffset().AtStart()),
 			}
 			common = append(common, cfg.protoOpts()...)
-			st.cl = nscen.NewClient(x, "M", c, append(append([]kgo.Opt{}, common...), cfg.opts...)...)
+			mOpts := append(append([]kgo.Opt{}, common...), cfg.opts...)
+			interval := 100 * time.Millisecond
+			if cfg.auto {
+				mOpts = append(mOpts, kgo.AutoCommitCallback(st.ownCommitDone))
+				if cfg.name == "auto-long" {
+					interval = 5 * time.Second
+				}
+			}
+			tClient := time.Now() // the autocommit ticker starts with the client
+			st.cl = nscen.NewClient(x, "M", c, mOpts...)
 			bOpts := append(append(nscen.BaseOpts(x, "B", c), common...), kgo.DisableAutoCommit())
 			x.OnCleanup(func() {
 				st.mu.Lock()
@@ -610,6 +659,9 @@ func genScenario() *netctl.Scenario {
 					case 'Z':
 						t.Step("think-6s")
 						time.Sleep(6 * time.Second)
+					case 'z':
+						t.Step("think-past-tick")
+						time.Sleep(interval - time.Since(tClient)%interval + 5*time.Millisecond)
 					case 'R':
 						t.Step(fmt.Sprintf("commit%d-records", cc.idx))
 						st.finish(cc, nil, st.cl.CommitRecords(st.ctxFor(cc, bg), last...))
@@ -838,8 +890,11 @@ func genFinal(x *netctl.Exec, st *gstate) {
 			if eo, ok := m[p]; ok {
 				obs = append(obs, fmt.Sprintf("v%d=%d", p, eo.Offset))
 				_, okv := viewOK[eo.Offset]
-				// not stable: the view was re-read from the broker at some point
-				if !okv && (stable || !(eo.Offset == b || (b == -1 && eo.Offset == 0))) {
+				// Judged only while the first assignment is still in place: after a
+				// revoke / re-assign / leave the entry is dropped, re-read from the
+				// broker, or recreated empty by MarkCommitRecords; the docs leave
+				// its value open.
+				if !okv && stable {
 					x.Violate("client-view-mismatch", "cfg %s script %s/%s t/%d: CommittedOffsets() reports %d, but the last successful commit is %s (allowed: %v; broker has %d; assignment stable: %v); %s", st.cfg.name, st.t1, st.t2, p, eo.Offset, want, keys(viewOK), b, stable, strings.Join(obs, " "))
 				}
 			}
